@@ -155,38 +155,38 @@ theorem handlers_nil (σ : List Scope) (rep L0 : Nat) (rs : List Nat) (b : B) (a
     · simp [flowHandlers] at hx
 
 /-- The optional `else` block of a `try`: a conditional section with one real branch. -/
-theorem orelse_section (σ' : List Scope) (orelse : List Stmt) (b1 : B) (a1 : Acc) (R1n : List Nat) (T : Nat)
-    (hnd : (repKey orelse ++ keysL3 orelse).Nodup)
-    (hpre : Pre σ' (repKey orelse ++ keysL3 orelse) b1) (hc : InLeaves b1 R1n)
+theorem orelse_section (i : Nat) (σ' : List Scope) (orelse : List Stmt) (b1 : B) (a1 : Acc) (R1n : List Nat) (T : Nat)
+    (hnd : (elseKey i orelse ++ keysL3 orelse).Nodup)
+    (hpre : Pre σ' (elseKey i orelse ++ keysL3 orelse) b1) (hc : InLeaves b1 R1n)
     (forelse : ∀ (b : B) (a : Acc), FF (keysL3 orelse) b (visitStmts σ' orelse b a).1)
     (horelse : ∀ (b : B) (a : Acc) (cur : List Nat), Pre σ' (keysL3 orelse) b → InLeaves b cur →
       Post σ' T [] (visitStmts σ' orelse b a).1 (flowBlock orelse cur)) :
-    Post σ' T [] (optSection (orelse.head?.map Stmt.id) (fun k b => (b.enterCondSection k).newCondBranch k)
+    Post σ' T [] (optSection (elseRep i orelse) (fun k b => (b.enterCondSection k).newCondBranch k)
         (fun k b => (b.newCondBranch k).exitCondSection k) (fun _ => visitStmts σ' orelse) (b1, a1)).1
       (flowBlock orelse R1n) := by
   cases orelse with
   | nil =>
-    simp only [List.head?_nil, Option.map_none, optSection, flowBlock]
+    simp only [elseRep, List.isEmpty_nil, if_true, optSection, flowBlock]
     exact ⟨Pend.of_req σ' T [] b1 [] R1n (fun _ h => (List.not_mem_nil h).elim), hc, hpre.ldj⟩
   | cons s0 rest =>
-    simp only [List.head?_cons, Option.map_some, optSection]
-    have hkeys : repKey (s0 :: rest) = [ck s0.id] := rfl
+    simp only [elseRep, List.isEmpty_cons, Bool.false_eq_true, if_false, optSection]
+    have hkeys : elseKey i (s0 :: rest) = [ck i] := rfl
     rw [hkeys] at hnd hpre
     obtain ⟨hro, hndo⟩ := List.nodup_cons.mp hnd
     -- enter + first branch
-    obtain ⟨c1, c2, c3, c4, _, _⟩ := enterCondSection_effect b1 s0.id
-    have hce0 : aget s0.id (b1.enterCondSection s0.id).condEntry = none := by
-      rw [c2]; exact hpre.fresh s0.id (List.mem_cons_self ..)
-    let bo1 := (b1.enterCondSection s0.id).newCondBranch s0.id
-    have hbo1 : bo1 = (b1.enterCondSection s0.id).putCondEntry s0.id (b1.enterCondSection s0.id).leaves :=
-      newCondBranch_first _ s0.id [] c1 hce0
+    obtain ⟨c1, c2, c3, c4, _, _⟩ := enterCondSection_effect b1 i
+    have hce0 : aget i (b1.enterCondSection i).condEntry = none := by
+      rw [c2]; exact hpre.fresh i (List.mem_cons_self ..)
+    let bo1 := (b1.enterCondSection i).newCondBranch i
+    have hbo1 : bo1 = (b1.enterCondSection i).putCondEntry i (b1.enterCondSection i).leaves :=
+      newCondBranch_first _ i [] c1 hce0
     have hl1 : bo1.leafSet = b1.leafSet := by rw [hbo1]; exact c3
-    have hce1 : aget s0.id bo1.condEntry = some (b1.enterCondSection s0.id).leaves := by
-      rw [hbo1]; show aget s0.id (aset s0.id _ _) = _; rw [aget_aset]; simp
-    have hcl1 : aget s0.id bo1.condLeaves = some [] := by rw [hbo1]; exact c1
-    have f01 : FF [ck s0.id] b1 bo1 := (ff_enterCondSection _ b1 s0.id (by simp)).trans (ff_newCondBranch _ _ s0.id (by simp))
-    have ldj1 : ListsDisjoint bo1 := ((neutral_enterCondSection b1 s0.id).trans (neutral_newCondBranch _ s0.id)).ldj hpre.ldj
-    have hσ1 : ∀ k, k ∈ scopeKeys σ' → k ∉ [ck s0.id] :=
+    have hce1 : aget i bo1.condEntry = some (b1.enterCondSection i).leaves := by
+      rw [hbo1]; show aget i (aset i _ _) = _; rw [aget_aset]; simp
+    have hcl1 : aget i bo1.condLeaves = some [] := by rw [hbo1]; exact c1
+    have f01 : FF [ck i] b1 bo1 := (ff_enterCondSection _ b1 i (by simp)).trans (ff_newCondBranch _ _ i (by simp))
+    have ldj1 : ListsDisjoint bo1 := ((neutral_enterCondSection b1 i).trans (neutral_newCondBranch _ i)).ldj hpre.ldj
+    have hσ1 : ∀ k, k ∈ scopeKeys σ' → k ∉ [ck i] :=
       fun k hk h => hpre.disj k hk (by simp only [List.mem_singleton] at h; rw [h]; exact List.mem_cons_self ..)
     have pre1 : Pre σ' (keysL3 (s0 :: rest)) bo1 :=
       (hpre.sub (fun k hk => List.mem_cons_of_mem _ hk)).move f01.f f01.x hσ1
@@ -194,23 +194,23 @@ theorem orelse_section (σ' : List Scope) (orelse : List Stmt) (b1 : B) (a1 : Ac
     have IH := horelse bo1 a1 R1n pre1 (fun x hx => by rw [hl1]; exact hc x hx)
     let bo2 := (visitStmts σ' (s0 :: rest) bo1 a1).1
     have fo : FF (keysL3 (s0 :: rest)) bo1 bo2 := forelse bo1 a1
-    have hce2 : aget s0.id bo2.condEntry = some (b1.enterCondSection s0.id).leaves := by rw [fo.f.condEntry _ hro]; exact hce1
-    have hcl2 : aget s0.id bo2.condLeaves = some [] := by rw [fo.f.condLeaves _ hro]; exact hcl1
-    let bo3 := bo2.newCondBranch s0.id
-    have hbo3 : bo3 = (bo2.putCondLeaves s0.id ([] ++ [bo2.leaves])).setLeavesRef (b1.enterCondSection s0.id).leaves :=
-      newCondBranch_next bo2 s0.id [] _ hcl2 hce2
-    have hcl3 : aget s0.id bo3.condLeaves = some [bo2.leaves] := by
-      rw [hbo3]; show aget s0.id (aset s0.id _ _) = _; rw [aget_aset]; simp
-    have hv3 : Valid bo3 := (B.frame_newCondBranch [ck s0.id] bo2 s0.id (by simp)).valid (fo.f.valid pre1.valid)
-    obtain ⟨x1, x2, x3⟩ := exitCondSection_effect bo3 s0.id [bo2.leaves] hcl3 hv3
-    have f23 : FF [ck s0.id] bo2 (bo3.exitCondSection s0.id) :=
-      (ff_newCondBranch [ck s0.id] bo2 s0.id (by simp)).trans (ff_exitCondSection _ _ s0.id (by simp))
-    refine ⟨keeps_tr ((Tr.nil σ' (fo.x.lin pre1.lin)).cons_ck s0.id) f23 (TOk.nil _ _) _ IH.pend, ?_, ?_⟩
+    have hce2 : aget i bo2.condEntry = some (b1.enterCondSection i).leaves := by rw [fo.f.condEntry _ hro]; exact hce1
+    have hcl2 : aget i bo2.condLeaves = some [] := by rw [fo.f.condLeaves _ hro]; exact hcl1
+    let bo3 := bo2.newCondBranch i
+    have hbo3 : bo3 = (bo2.putCondLeaves i ([] ++ [bo2.leaves])).setLeavesRef (b1.enterCondSection i).leaves :=
+      newCondBranch_next bo2 i [] _ hcl2 hce2
+    have hcl3 : aget i bo3.condLeaves = some [bo2.leaves] := by
+      rw [hbo3]; show aget i (aset i _ _) = _; rw [aget_aset]; simp
+    have hv3 : Valid bo3 := (B.frame_newCondBranch [ck i] bo2 i (by simp)).valid (fo.f.valid pre1.valid)
+    obtain ⟨x1, x2, x3⟩ := exitCondSection_effect bo3 i [bo2.leaves] hcl3 hv3
+    have f23 : FF [ck i] bo2 (bo3.exitCondSection i) :=
+      (ff_newCondBranch [ck i] bo2 i (by simp)).trans (ff_exitCondSection _ _ i (by simp))
+    refine ⟨keeps_tr ((Tr.nil σ' (fo.x.lin pre1.lin)).cons_ck i) f23 (TOk.nil _ _) _ IH.pend, ?_, ?_⟩
     · intro x hx
       have h1 : x ∈ bo2.deref bo2.leaves := IH.norm x hx
       have h2 : x ∈ bo3.deref bo2.leaves := by rw [deref_eq_of_heap (b := bo2) (by rw [hbo3]; rfl)]; exact h1
       exact x2 _ (by simp) x h2
-    · exact ((neutral_newCondBranch bo2 s0.id).trans (neutral_exitCondSection _ s0.id)).ldj IH.ldj
+    · exact ((neutral_newCondBranch bo2 i).trans (neutral_exitCondSection _ i)).ldj IH.ldj
 
 /-! ### `try`: body, `else` block and handlers -/
 
@@ -262,8 +262,8 @@ theorem Pend.drop_handlers {σ : List Scope} {i : Nat} {fin : Bool} {hs : List N
   · exact ⟨h.req, h.brk, h.cont, h.ret,
       fun x hx => ⟨(h.raise x hx).1, fun hd hhd => (h.raise x hx).2 hd (List.mem_append.mpr (Or.inr hhd))⟩, h.exempt⟩
 
-def tryR2 (σ' : List Scope) (orelse : List Stmt) (r1 : B × Acc) : B × Acc :=
-  optSection (orelse.head?.map Stmt.id) (fun k b => (b.enterCondSection k).newCondBranch k)
+def tryR2 (i : Nat) (σ' : List Scope) (orelse : List Stmt) (r1 : B × Acc) : B × Acc :=
+  optSection (elseRep i orelse) (fun k b => (b.enterCondSection k).newCondBranch k)
     (fun k b => (b.newCondBranch k).exitCondSection k) (fun _ => visitStmts σ' orelse) r1
 def tryR3 (σ : List Scope) (handlers : List Stmt) (r2 : B × Acc) : B × Acc :=
   optSection (handlers.head?.map Stmt.id) (fun k b => b.enterCondSection k) (fun k b => (b.newCondBranch k).exitCondSection k)
@@ -276,9 +276,9 @@ theorem Tr.in_try {σ : List Scope} {K : List Nat} {b : B} (h : Tr σ K b) (i : 
 theorem lemB_tryPre (σ : List Scope) (i : Nat) (body handlers orelse final : List Stmt) (b : B) (a : Acc) (cur : List Nat)
     (inLoop fin : Bool) (T : Nat) (curP : List Nat)
     (hH : frag3H inLoop handlers = true)
-    (hnd : (sk i :: (repKey orelse ++ (repKey handlers ++ (keysL3 body ++ (keysL3 handlers ++ (keysL3 orelse ++ keysL3 final)))))).Nodup)
-    (hp : Pre σ (sk i :: (repKey orelse ++ (repKey handlers ++ (keysL3 body ++ (keysL3 handlers ++ (keysL3 orelse ++ keysL3 final)))))) b)
-    (hT : TOk curP T (sk i :: (repKey orelse ++ (repKey handlers ++ (keysL3 body ++ (keysL3 handlers ++ (keysL3 orelse ++ keysL3 final)))))))
+    (hnd : (sk i :: (elseKey i orelse ++ (repKey handlers ++ (keysL3 body ++ (keysL3 handlers ++ (keysL3 orelse ++ keysL3 final)))))).Nodup)
+    (hp : Pre σ (sk i :: (elseKey i orelse ++ (repKey handlers ++ (keysL3 body ++ (keysL3 handlers ++ (keysL3 orelse ++ keysL3 final)))))) b)
+    (hT : TOk curP T (sk i :: (elseKey i orelse ++ (repKey handlers ++ (keysL3 body ++ (keysL3 handlers ++ (keysL3 orelse ++ keysL3 final)))))))
     (hc : ∀ x, x ∈ cur → Src b T curP x)
     (fbody : ∀ (b : B) (a : Acc), FF (keysL3 body) b (visitStmts (Scope.try_ i fin (handlerIds handlers) :: σ) body b a).1)
     (forelse : ∀ (b : B) (a : Acc), FF (keysL3 orelse) b (visitStmts (Scope.try_ i fin (handlerIds handlers) :: σ) orelse b a).1)
@@ -296,42 +296,42 @@ theorem lemB_tryPre (σ : List Scope) (i : Nat) (body handlers orelse final : Li
       (∀ hid, hid ∈ handlerIds handlers → ∀ x, x ∈ rs → ∃ l, aget hid b.raises = some l ∧ x ∈ l) →
       HandlersOk σ rep L0 rs handlers b a splits T) :
     Pend (Scope.try_ i fin [] :: σ) T curP
-      (tryR3 σ handlers (tryR2 (Scope.try_ i fin (handlerIds handlers) :: σ) orelse
+      (tryR3 σ handlers (tryR2 i (Scope.try_ i fin (handlerIds handlers) :: σ) orelse
         (visitStmts (Scope.try_ i fin (handlerIds handlers) :: σ) body (b.beginStatement i) a))).1 (flowBlock body cur) ∧
     Pend (Scope.try_ i fin [] :: σ) T []
-      (tryR3 σ handlers (tryR2 (Scope.try_ i fin (handlerIds handlers) :: σ) orelse
+      (tryR3 σ handlers (tryR2 i (Scope.try_ i fin (handlerIds handlers) :: σ) orelse
         (visitStmts (Scope.try_ i fin (handlerIds handlers) :: σ) body (b.beginStatement i) a))).1
       (flowBlock orelse (flowBlock body cur).normal) ∧
     Pend σ T []
-      (tryR3 σ handlers (tryR2 (Scope.try_ i fin (handlerIds handlers) :: σ) orelse
+      (tryR3 σ handlers (tryR2 i (Scope.try_ i fin (handlerIds handlers) :: σ) orelse
         (visitStmts (Scope.try_ i fin (handlerIds handlers) :: σ) body (b.beginStatement i) a))).1
       (flowHandlers handlers (flowBlock body cur).raise) ∧
     InLeaves
-      (tryR3 σ handlers (tryR2 (Scope.try_ i fin (handlerIds handlers) :: σ) orelse
+      (tryR3 σ handlers (tryR2 i (Scope.try_ i fin (handlerIds handlers) :: σ) orelse
         (visitStmts (Scope.try_ i fin (handlerIds handlers) :: σ) body (b.beginStatement i) a))).1
       ((flowBlock orelse (flowBlock body cur).normal).normal ++ (flowHandlers handlers (flowBlock body cur).raise).normal) ∧
     ListsDisjoint
-      (tryR3 σ handlers (tryR2 (Scope.try_ i fin (handlerIds handlers) :: σ) orelse
+      (tryR3 σ handlers (tryR2 i (Scope.try_ i fin (handlerIds handlers) :: σ) orelse
         (visitStmts (Scope.try_ i fin (handlerIds handlers) :: σ) body (b.beginStatement i) a))).1 ∧
-    FF (repKey orelse ++ (repKey handlers ++ (keysL3 body ++ (keysL3 handlers ++ keysL3 orelse)))) b
-      (tryR3 σ handlers (tryR2 (Scope.try_ i fin (handlerIds handlers) :: σ) orelse
+    FF (elseKey i orelse ++ (repKey handlers ++ (keysL3 body ++ (keysL3 handlers ++ keysL3 orelse)))) b
+      (tryR3 σ handlers (tryR2 i (Scope.try_ i fin (handlerIds handlers) :: σ) orelse
         (visitStmts (Scope.try_ i fin (handlerIds handlers) :: σ) body (b.beginStatement i) a))).1 := by
   -- abbreviations
   let σ' := Scope.try_ i fin (handlerIds handlers) :: σ
   -- key bookkeeping
   obtain ⟨hi_all, hnd0⟩ := List.nodup_cons.mp hnd
   obtain ⟨⟨nd_ro, nd_rh, nd_b, nd_h, nd_o, nd_f⟩, d_ro, d_rh, d_b, d_h, d_o⟩ := nd6 hnd0
-  have kro : ∀ k, k ∈ repKey orelse → k ∈ sk i :: (repKey orelse ++ (repKey handlers ++ (keysL3 body ++ (keysL3 handlers ++ (keysL3 orelse ++ keysL3 final))))) :=
+  have kro : ∀ k, k ∈ elseKey i orelse → k ∈ sk i :: (elseKey i orelse ++ (repKey handlers ++ (keysL3 body ++ (keysL3 handlers ++ (keysL3 orelse ++ keysL3 final))))) :=
     fun k hk => List.mem_cons_of_mem _ (by simp [hk])
-  have krh : ∀ k, k ∈ repKey handlers → k ∈ sk i :: (repKey orelse ++ (repKey handlers ++ (keysL3 body ++ (keysL3 handlers ++ (keysL3 orelse ++ keysL3 final))))) :=
+  have krh : ∀ k, k ∈ repKey handlers → k ∈ sk i :: (elseKey i orelse ++ (repKey handlers ++ (keysL3 body ++ (keysL3 handlers ++ (keysL3 orelse ++ keysL3 final))))) :=
     fun k hk => List.mem_cons_of_mem _ (by simp [hk])
-  have kb : ∀ k, k ∈ keysL3 body → k ∈ sk i :: (repKey orelse ++ (repKey handlers ++ (keysL3 body ++ (keysL3 handlers ++ (keysL3 orelse ++ keysL3 final))))) :=
+  have kb : ∀ k, k ∈ keysL3 body → k ∈ sk i :: (elseKey i orelse ++ (repKey handlers ++ (keysL3 body ++ (keysL3 handlers ++ (keysL3 orelse ++ keysL3 final))))) :=
     fun k hk => List.mem_cons_of_mem _ (by simp [hk])
-  have kh : ∀ k, k ∈ keysL3 handlers → k ∈ sk i :: (repKey orelse ++ (repKey handlers ++ (keysL3 body ++ (keysL3 handlers ++ (keysL3 orelse ++ keysL3 final))))) :=
+  have kh : ∀ k, k ∈ keysL3 handlers → k ∈ sk i :: (elseKey i orelse ++ (repKey handlers ++ (keysL3 body ++ (keysL3 handlers ++ (keysL3 orelse ++ keysL3 final))))) :=
     fun k hk => List.mem_cons_of_mem _ (by simp [hk])
-  have ko : ∀ k, k ∈ keysL3 orelse → k ∈ sk i :: (repKey orelse ++ (repKey handlers ++ (keysL3 body ++ (keysL3 handlers ++ (keysL3 orelse ++ keysL3 final))))) :=
+  have ko : ∀ k, k ∈ keysL3 orelse → k ∈ sk i :: (elseKey i orelse ++ (repKey handlers ++ (keysL3 body ++ (keysL3 handlers ++ (keysL3 orelse ++ keysL3 final))))) :=
     fun k hk => List.mem_cons_of_mem _ (by simp [hk])
-  have kroo : ∀ k, k ∈ repKey orelse ++ keysL3 orelse → k ∈ sk i :: (repKey orelse ++ (repKey handlers ++ (keysL3 body ++ (keysL3 handlers ++ (keysL3 orelse ++ keysL3 final))))) :=
+  have kroo : ∀ k, k ∈ elseKey i orelse ++ keysL3 orelse → k ∈ sk i :: (elseKey i orelse ++ (repKey handlers ++ (keysL3 body ++ (keysL3 handlers ++ (keysL3 orelse ++ keysL3 final))))) :=
     fun k hk => (List.mem_append.mp hk).elim (kro k) (ko k)
   have hskh : ∀ hid, hid ∈ handlerIds handlers → sk hid ∈ keysL3 handlers := sk_handlerIds_mem3 inLoop handlers hH
   -- scope keys of σ'
@@ -355,7 +355,7 @@ theorem lemB_tryPre (σ : List Scope) (i : Nat) (body handlers orelse final : Li
     · obtain ⟨F, hF, l, hl⟩ := hq.fnOpen
       exact ⟨F, by cases fin <;> exact hF, l, hl⟩
   have hh_b : ∀ hid, hid ∈ handlerIds handlers → sk hid ∉ keysL3 body := fun hid h hk => (d_b _ hk).1 (hskh hid h)
-  have hh_o : ∀ hid, hid ∈ handlerIds handlers → sk hid ∉ repKey orelse ++ keysL3 orelse := by
+  have hh_o : ∀ hid, hid ∈ handlerIds handlers → sk hid ∉ elseKey i orelse ++ keysL3 orelse := by
     intro hid h hk
     rcases List.mem_append.mp hk with hk | hk
     · exact (d_ro _ hk).2.2.1 (hskh hid h)
@@ -363,7 +363,7 @@ theorem lemB_tryPre (σ : List Scope) (i : Nat) (body handlers orelse final : Li
   -- 1. begin_statement and the body
   let b0 := b.beginStatement i
   have f00 : FF [] b b0 := ff_beginStatement _ b i
-  have hp0 : Pre σ (sk i :: (repKey orelse ++ (repKey handlers ++ (keysL3 body ++ (keysL3 handlers ++ (keysL3 orelse ++ keysL3 final)))))) b0 :=
+  have hp0 : Pre σ (sk i :: (elseKey i orelse ++ (repKey handlers ++ (keysL3 body ++ (keysL3 handlers ++ (keysL3 orelse ++ keysL3 final)))))) b0 :=
     hp.move f00.f f00.x (fun _ _ h => (List.not_mem_nil h).elim) (fun _ _ h => (List.not_mem_nil h).elim) ((neutral_beginStatement b i).ldj hp.ldj)
   have pre0 : Pre σ' (keysL3 body) b0 := mkPre _ b0 hh_b (hp0.sub kb)
   have hc0 : ∀ x, x ∈ cur → Src b0 T curP x := fun x hx => (neutral_beginStatement b i).src rfl (hc x hx)
@@ -371,24 +371,24 @@ theorem lemB_tryPre (σ : List Scope) (i : Nat) (body handlers orelse final : Li
   let r1 := visitStmts σ' body b0 a
   have fb : FF (keysL3 body) b0 r1.1 := fbody b0 a
   -- 2. the else block
-  have d_roo_b : ∀ k, k ∈ repKey orelse ++ keysL3 orelse → k ∉ keysL3 body := by
+  have d_roo_b : ∀ k, k ∈ elseKey i orelse ++ keysL3 orelse → k ∉ keysL3 body := by
     intro k hk h
     rcases List.mem_append.mp hk with hk | hk
     · exact (d_ro _ hk).2.1 h
     · exact (d_b _ h).2.1 hk
-  have pre1 : Pre σ' (repKey orelse ++ keysL3 orelse) r1.1 :=
+  have pre1 : Pre σ' (elseKey i orelse ++ keysL3 orelse) r1.1 :=
     (mkPre _ b0 hh_o (hp0.sub kroo)).move fb.f fb.x pre0.disj d_roo_b IHb.ldj
-  have nd_roo : (repKey orelse ++ keysL3 orelse).Nodup :=
+  have nd_roo : (elseKey i orelse ++ keysL3 orelse).Nodup :=
     List.nodup_append.mpr ⟨nd_ro, nd_o, fun x hx y hy e => (d_ro x hx).2.2.2.1 (e ▸ hy)⟩
-  have IHo := orelse_section σ' orelse r1.1 r1.2 _ T nd_roo pre1 IHb.norm forelse horelse
-  let r2 := tryR2 σ' orelse r1
-  have f12 : FF (repKey orelse ++ keysL3 orelse) r1.1 r2.1 := by
+  have IHo := orelse_section i σ' orelse r1.1 r1.2 _ T nd_roo pre1 IHb.norm forelse horelse
+  let r2 := tryR2 i σ' orelse r1
+  have f12 : FF (elseKey i orelse ++ keysL3 orelse) r1.1 r2.1 := by
     refine ff_optSection _ _ _ _ _ r1 ?_ ?_ ?_
     · intro k b' hk
-      have hk' : ck k ∈ repKey orelse ++ keysL3 orelse := List.mem_append.mpr (Or.inl (mem_repKey orelse k hk))
+      have hk' : ck k ∈ elseKey i orelse ++ keysL3 orelse := List.mem_append.mpr (Or.inl (mem_elseKey i orelse k hk))
       exact (ff_enterCondSection _ _ k hk').trans (ff_newCondBranch _ _ k hk')
     · intro k b' hk
-      have hk' : ck k ∈ repKey orelse ++ keysL3 orelse := List.mem_append.mpr (Or.inl (mem_repKey orelse k hk))
+      have hk' : ck k ∈ elseKey i orelse ++ keysL3 orelse := List.mem_append.mpr (Or.inl (mem_elseKey i orelse k hk))
       exact (ff_newCondBranch _ _ k hk').trans (ff_exitCondSection _ _ k hk')
     · intro k b' a' _
       exact (forelse b' a').weaken (fun k hk => List.mem_append.mpr (Or.inr hk))
@@ -396,11 +396,11 @@ theorem lemB_tryPre (σ : List Scope) (i : Nat) (body handlers orelse final : Li
   have P1 : Pend (Scope.try_ i fin [] :: σ) T curP r2.1 (flowBlock body cur) :=
     (keeps_tr pre1.tr f12 (hT.sub kroo) _ IHb.pend).drop_handlers
   have P2 : Pend (Scope.try_ i fin [] :: σ) T [] r2.1 (flowBlock orelse (flowBlock body cur).normal) := IHo.pend.drop_handlers
-  have f02 : FF (keysL3 body ++ (repKey orelse ++ keysL3 orelse)) b r2.1 :=
+  have f02 : FF (keysL3 body ++ (elseKey i orelse ++ keysL3 orelse)) b r2.1 :=
     ((f00.weaken (fun _ h => (List.not_mem_nil h).elim)).trans (fb.weaken (fun k hk => List.mem_append.mpr (Or.inl hk)))).trans
       (f12.weaken (fun k hk => List.mem_append.mpr (Or.inr hk)))
-  have k5 : ∀ k, k ∈ keysL3 body ++ (repKey orelse ++ keysL3 orelse) →
-      k ∈ repKey orelse ++ (repKey handlers ++ (keysL3 body ++ (keysL3 handlers ++ keysL3 orelse))) := by
+  have k5 : ∀ k, k ∈ keysL3 body ++ (elseKey i orelse ++ keysL3 orelse) →
+      k ∈ elseKey i orelse ++ (repKey handlers ++ (keysL3 body ++ (keysL3 handlers ++ keysL3 orelse))) := by
     intro k hk
     rcases List.mem_append.mp hk with hk | hk
     · simp [hk]
@@ -425,7 +425,7 @@ theorem lemB_tryPre (σ : List Scope) (i : Nat) (body handlers orelse final : Li
     have hrepK : ck h0.id ∈ repKey (h0 :: rest) := by rw [hrk]; simp
     have hrep_h : ck h0.id ∉ keysL3 (h0 :: rest) := (d_rh _ hrepK).2.1
     have hrep_b : ck h0.id ∉ keysL3 body := (d_rh _ hrepK).1
-    have hrep_o : ck h0.id ∉ repKey orelse ++ keysL3 orelse := by
+    have hrep_o : ck h0.id ∉ elseKey i orelse ++ keysL3 orelse := by
       intro h
       rcases List.mem_append.mp h with h | h
       · exact (d_ro _ h).1 hrepK
@@ -438,9 +438,9 @@ theorem lemB_tryPre (σ : List Scope) (i : Nat) (body handlers orelse final : Li
       rw [c2, f12.f.condEntry _ hrep_o, fb.f.condEntry _ hrep_b]
       exact hp0.fresh h0.id (krh _ hrepK)
     have ldjh : ListsDisjoint bh := (neutral_enterCondSection r2.1 h0.id).ldj IHo.ldj
-    have f0h : FF (ck h0.id :: (keysL3 body ++ (repKey orelse ++ keysL3 orelse))) b bh :=
+    have f0h : FF (ck h0.id :: (keysL3 body ++ (elseKey i orelse ++ keysL3 orelse))) b bh :=
       (f02.weaken (fun k hk => List.mem_cons_of_mem _ hk)).trans (ff_enterCondSection _ _ h0.id (List.mem_cons_self ..))
-    have d_h_pre : ∀ k, k ∈ keysL3 (h0 :: rest) → k ∉ ck h0.id :: (keysL3 body ++ (repKey orelse ++ keysL3 orelse)) := by
+    have d_h_pre : ∀ k, k ∈ keysL3 (h0 :: rest) → k ∉ ck h0.id :: (keysL3 body ++ (elseKey i orelse ++ keysL3 orelse)) := by
       intro k hk h
       rcases List.mem_cons.mp h with h | h
       · exact hrep_h (h ▸ hk)
@@ -472,10 +472,10 @@ theorem lemB_tryPre (σ : List Scope) (i : Nat) (body handlers orelse final : Li
       (((ff_enterCondSection _ r2.1 h0.id (List.mem_cons_self ..)).trans
         (fhand h0.id _ bh r2.2 (List.mem_cons_self ..) (fun k hk => List.mem_cons_of_mem _ hk))).trans
         (ff_newCondBranch _ _ h0.id (List.mem_cons_self ..))).trans (ff_exitCondSection _ _ h0.id (List.mem_cons_self ..))
-    have d_h_02 : ∀ k, k ∈ keysL3 (h0 :: rest) → k ∉ keysL3 body ++ (repKey orelse ++ keysL3 orelse) :=
+    have d_h_02 : ∀ k, k ∈ keysL3 (h0 :: rest) → k ∉ keysL3 body ++ (elseKey i orelse ++ keysL3 orelse) :=
       fun k hk h => d_h_pre k hk (List.mem_cons_of_mem _ h)
     have tr2 : Tr σ (ck h0.id :: keysL3 (h0 :: rest)) r2.1 := ((hp.tr.sub kh).move f02.x d_h_02).cons_ck h0.id
-    have hTe : ∀ cP, TOk cP T (sk i :: (repKey orelse ++ (repKey (h0 :: rest) ++ (keysL3 body ++ (keysL3 (h0 :: rest) ++ (keysL3 orelse ++ keysL3 final)))))) →
+    have hTe : ∀ cP, TOk cP T (sk i :: (elseKey i orelse ++ (repKey (h0 :: rest) ++ (keysL3 body ++ (keysL3 (h0 :: rest) ++ (keysL3 orelse ++ keysL3 final)))))) →
         TOk cP T (ck h0.id :: keysL3 (h0 :: rest)) := fun cP h => (h.sub kh).cons_ck h0.id
     refine ⟨keeps_tr (tr2.in_try i fin) f2e (hTe _ hT) _ P1, keeps_tr (tr2.in_try i fin) f2e (TOk.nil _ _) _ P2, HO1, ?_, HO2, ?_⟩
     · intro x hx
@@ -658,9 +658,9 @@ theorem Pend.three {σ : List Scope} {T : Nat} {curP : List Nat} {b : B} {R1 R2 
 theorem lemB_try_nofin (σ : List Scope) (i : Nat) (body handlers orelse : List Stmt) (b : B) (a : Acc) (cur : List Nat)
     (inLoop : Bool) (T : Nat) (curP : List Nat)
     (hH : frag3H inLoop handlers = true)
-    (hnd : (sk i :: (repKey orelse ++ (repKey handlers ++ (keysL3 body ++ (keysL3 handlers ++ (keysL3 orelse ++ keysL3 [])))))).Nodup)
-    (hp : Pre σ (sk i :: (repKey orelse ++ (repKey handlers ++ (keysL3 body ++ (keysL3 handlers ++ (keysL3 orelse ++ keysL3 [])))))) b)
-    (hT : TOk curP T (sk i :: (repKey orelse ++ (repKey handlers ++ (keysL3 body ++ (keysL3 handlers ++ (keysL3 orelse ++ keysL3 [])))))))
+    (hnd : (sk i :: (elseKey i orelse ++ (repKey handlers ++ (keysL3 body ++ (keysL3 handlers ++ (keysL3 orelse ++ keysL3 [])))))).Nodup)
+    (hp : Pre σ (sk i :: (elseKey i orelse ++ (repKey handlers ++ (keysL3 body ++ (keysL3 handlers ++ (keysL3 orelse ++ keysL3 [])))))) b)
+    (hT : TOk curP T (sk i :: (elseKey i orelse ++ (repKey handlers ++ (keysL3 body ++ (keysL3 handlers ++ (keysL3 orelse ++ keysL3 [])))))))
     (hc : ∀ x, x ∈ cur → Src b T curP x)
     (fbody : ∀ (b : B) (a : Acc), FF (keysL3 body) b (visitStmts (Scope.try_ i false (handlerIds handlers) :: σ) body b a).1)
     (forelse : ∀ (b : B) (a : Acc), FF (keysL3 orelse) b (visitStmts (Scope.try_ i false (handlerIds handlers) :: σ) orelse b a).1)
@@ -681,7 +681,7 @@ theorem lemB_try_nofin (σ : List Scope) (i : Nat) (body handlers orelse : List 
   obtain ⟨P1, P2, PH, hN, ldj3, _⟩ := lemB_tryPre σ i body handlers orelse [] b a cur inLoop false T curP hH hnd hp hT hc
     fbody forelse fhand hbody horelse hhand
   have hvis : (visitStmt σ (.try_ i body handlers orelse []) b a).1 =
-      (tryR3 σ handlers (tryR2 (Scope.try_ i false (handlerIds handlers) :: σ) orelse
+      (tryR3 σ handlers (tryR2 i (Scope.try_ i false (handlerIds handlers) :: σ) orelse
         (visitStmts (Scope.try_ i false (handlerIds handlers) :: σ) body (b.beginStatement i) a))).1.endStatement i := rfl
   rw [hvis]
   simp only [flowStmt, List.isEmpty_nil, if_true]
@@ -698,9 +698,9 @@ theorem Pend.drop_normal {σ : List Scope} {T : Nat} {curP : List Nat} {b : B} {
 theorem lemB_try_fin (σ : List Scope) (i : Nat) (body handlers orelse : List Stmt) (f0 : Stmt) (frest : List Stmt) (b : B) (a : Acc)
     (cur : List Nat) (inLoop : Bool) (T : Nat) (curP : List Nat)
     (hH : frag3H inLoop handlers = true)
-    (hnd : (sk i :: (repKey orelse ++ (repKey handlers ++ (keysL3 body ++ (keysL3 handlers ++ (keysL3 orelse ++ keysL3 (f0 :: frest))))))).Nodup)
-    (hp : Pre σ (sk i :: (repKey orelse ++ (repKey handlers ++ (keysL3 body ++ (keysL3 handlers ++ (keysL3 orelse ++ keysL3 (f0 :: frest))))))) b)
-    (hT : TOk curP T (sk i :: (repKey orelse ++ (repKey handlers ++ (keysL3 body ++ (keysL3 handlers ++ (keysL3 orelse ++ keysL3 (f0 :: frest))))))))
+    (hnd : (sk i :: (elseKey i orelse ++ (repKey handlers ++ (keysL3 body ++ (keysL3 handlers ++ (keysL3 orelse ++ keysL3 (f0 :: frest))))))).Nodup)
+    (hp : Pre σ (sk i :: (elseKey i orelse ++ (repKey handlers ++ (keysL3 body ++ (keysL3 handlers ++ (keysL3 orelse ++ keysL3 (f0 :: frest))))))) b)
+    (hT : TOk curP T (sk i :: (elseKey i orelse ++ (repKey handlers ++ (keysL3 body ++ (keysL3 handlers ++ (keysL3 orelse ++ keysL3 (f0 :: frest))))))))
     (hc : ∀ x, x ∈ cur → Src b T curP x)
     (fbody : ∀ (b : B) (a : Acc), FF (keysL3 body) b (visitStmts (Scope.try_ i true (handlerIds handlers) :: σ) body b a).1)
     (forelse : ∀ (b : B) (a : Acc), FF (keysL3 orelse) b (visitStmts (Scope.try_ i true (handlerIds handlers) :: σ) orelse b a).1)
@@ -730,20 +730,20 @@ theorem lemB_try_fin (σ : List Scope) (i : Nat) (body handlers orelse : List St
   obtain ⟨hi_all, hnd0⟩ := List.nodup_cons.mp hnd
   obtain ⟨_, d_ro, d_rh, d_b, d_h, d_o⟩ := nd6 hnd0
   have hi_f : sk i ∉ keysL3 (f0 :: frest) := fun h => hi_all (by simp [h])
-  have kf : ∀ k, k ∈ keysL3 (f0 :: frest) → k ∈ sk i :: (repKey orelse ++ (repKey handlers ++ (keysL3 body ++ (keysL3 handlers ++ (keysL3 orelse ++ keysL3 (f0 :: frest)))))) :=
+  have kf : ∀ k, k ∈ keysL3 (f0 :: frest) → k ∈ sk i :: (elseKey i orelse ++ (repKey handlers ++ (keysL3 body ++ (keysL3 handlers ++ (keysL3 orelse ++ keysL3 (f0 :: frest)))))) :=
     fun k hk => List.mem_cons_of_mem _ (by simp [hk])
-  have k5 : ∀ k, k ∈ repKey orelse ++ (repKey handlers ++ (keysL3 body ++ (keysL3 handlers ++ keysL3 orelse))) →
-      k ∈ sk i :: (repKey orelse ++ (repKey handlers ++ (keysL3 body ++ (keysL3 handlers ++ (keysL3 orelse ++ keysL3 (f0 :: frest)))))) := by
+  have k5 : ∀ k, k ∈ elseKey i orelse ++ (repKey handlers ++ (keysL3 body ++ (keysL3 handlers ++ keysL3 orelse))) →
+      k ∈ sk i :: (elseKey i orelse ++ (repKey handlers ++ (keysL3 body ++ (keysL3 handlers ++ (keysL3 orelse ++ keysL3 (f0 :: frest)))))) := by
     intro k hk
     simp only [List.mem_append] at hk
     rcases hk with hk | hk | hk | hk | hk <;> exact List.mem_cons_of_mem _ (by simp [hk])
-  have ki5 : ∀ k, k ∈ sk i :: (repKey orelse ++ (repKey handlers ++ (keysL3 body ++ (keysL3 handlers ++ keysL3 orelse)))) →
-      k ∈ sk i :: (repKey orelse ++ (repKey handlers ++ (keysL3 body ++ (keysL3 handlers ++ (keysL3 orelse ++ keysL3 (f0 :: frest)))))) := by
+  have ki5 : ∀ k, k ∈ sk i :: (elseKey i orelse ++ (repKey handlers ++ (keysL3 body ++ (keysL3 handlers ++ keysL3 orelse)))) →
+      k ∈ sk i :: (elseKey i orelse ++ (repKey handlers ++ (keysL3 body ++ (keysL3 handlers ++ (keysL3 orelse ++ keysL3 (f0 :: frest)))))) := by
     intro k hk
     rcases List.mem_cons.mp hk with e | hk
     · rw [e]; exact List.mem_cons_self ..
     · exact k5 k hk
-  have hi_5 : sk i ∉ repKey orelse ++ (repKey handlers ++ (keysL3 body ++ (keysL3 handlers ++ keysL3 orelse))) := by
+  have hi_5 : sk i ∉ elseKey i orelse ++ (repKey handlers ++ (keysL3 body ++ (keysL3 handlers ++ keysL3 orelse))) := by
     intro h
     have := k5 _ h
     rcases List.mem_cons.mp this with e | h'
@@ -751,7 +751,7 @@ theorem lemB_try_fin (σ : List Scope) (i : Nat) (body handlers orelse : List St
         simp only [List.mem_append] at h
         rcases h with h | h | h | h | h <;> simp [h])
     · exact hi_all h'
-  have d_f5 : ∀ k, k ∈ keysL3 (f0 :: frest) → k ∉ sk i :: (repKey orelse ++ (repKey handlers ++ (keysL3 body ++ (keysL3 handlers ++ keysL3 orelse)))) := by
+  have d_f5 : ∀ k, k ∈ keysL3 (f0 :: frest) → k ∉ sk i :: (elseKey i orelse ++ (repKey handlers ++ (keysL3 body ++ (keysL3 handlers ++ keysL3 orelse)))) := by
     intro k hk h
     rcases List.mem_cons.mp h with e | h
     · exact hi_f (e ▸ hk)
@@ -763,14 +763,14 @@ theorem lemB_try_fin (σ : List Scope) (i : Nat) (body handlers orelse : List St
       · exact (d_h _ h).2 hk
       · exact d_o _ h hk
   -- states
-  let R3 := tryR3 σ handlers (tryR2 (Scope.try_ i true (handlerIds handlers) :: σ) orelse
+  let R3 := tryR3 σ handlers (tryR2 i (Scope.try_ i true (handlerIds handlers) :: σ) orelse
         (visitStmts (Scope.try_ i true (handlerIds handlers) :: σ) body (b.beginStatement i) a))
   let b5 := R3.1.enterFinallySection i
   let r6 := visitStmts σ (f0 :: frest) b5 R3.2
   let b7 := r6.1.exitFinallySection i
   have hvis : (visitStmt σ (.try_ i body handlers orelse (f0 :: frest)) b a).1 = b7.endStatement i := rfl
   rw [hvis]
-  have f05 : FF (sk i :: (repKey orelse ++ (repKey handlers ++ (keysL3 body ++ (keysL3 handlers ++ keysL3 orelse))))) b b5 :=
+  have f05 : FF (sk i :: (elseKey i orelse ++ (repKey handlers ++ (keysL3 body ++ (keysL3 handlers ++ keysL3 orelse))))) b b5 :=
     (f03.weaken (fun k hk => List.mem_cons_of_mem _ hk)).trans (ff_enterFinallySection _ _ i (List.mem_cons_self ..))
   have ldj5 : ListsDisjoint b5 := ldj_of_eq (b := R3.1) rfl rfl ldj3
   have pre5 : Pre σ (keysL3 (f0 :: frest)) b5 := (hp.sub kf).move f05.f f05.x (fun k hk h => hp.disj k hk (ki5 k h)) d_f5 ldj5
@@ -810,7 +810,7 @@ theorem lemB_try_fin (σ : List Scope) (i : Nat) (body handlers orelse : List St
     (hp.tr.sub (fun k hk => by simp only [List.mem_singleton] at hk; rw [hk]; exact List.mem_cons_self ..)).move f03.x
       (fun k hk h => hi_5 (by simp only [List.mem_singleton] at hk; rw [← hk]; exact h))
   have k37 : ∀ (σ0 : List Scope), (∀ K' b', Tr σ K' b' → Tr σ0 K' b') → ∀ T' cP,
-      TOk cP T' (sk i :: (repKey orelse ++ (repKey handlers ++ (keysL3 body ++ (keysL3 handlers ++ (keysL3 orelse ++ keysL3 (f0 :: frest))))))) →
+      TOk cP T' (sk i :: (elseKey i orelse ++ (repKey handlers ++ (keysL3 body ++ (keysL3 handlers ++ (keysL3 orelse ++ keysL3 (f0 :: frest))))))) →
       Keeps σ0 T' cP R3.1 b7 := by
     intro σ0 hσ0 T' cP ht
     exact ((keeps_tr (hσ0 _ _ tr3) (ff_enterFinallySection [sk i] R3.1 i (by simp))
